@@ -41,14 +41,28 @@ class SimRandom(RandomSource):
         self._in_normal = 0
         self._log = log
         self.window: list | None = None  # when a list, randint results are appended (C17)
+        self.op_cap = None  # bounded liveness: draws allowed since the last reset_cap() (None = unbounded)
+        self.op_draws = 0
         if policy == "native":
             self.native = _pyrandom.Random(self.R.draw(2**32))
 
     def getstate(self):
         return self.draws
 
-    def randint(self, min: int, max: int) -> int:
+    def reset_cap(self):
+        self.op_draws = 0
+
+    def _tick(self):
         self.draws += 1
+        if self.op_cap is not None:
+            self.op_draws += 1
+            if self.op_draws > self.op_cap:
+                from .core import SimStepCap
+
+                raise SimStepCap("random draws")
+
+    def randint(self, min: int, max: int) -> int:
+        self._tick()
         if max < min:
             # the stdlib raises ValueError for an empty range; keep that contract
             raise ValueError(f"empty range for randint({min},{max})")
@@ -73,7 +87,7 @@ class SimRandom(RandomSource):
         return v
 
     def random_float(self, min: float, max: float) -> float:
-        self.draws += 1
+        self._tick()
         p = self.policy
         if p == "native":
             v = self.native.random() * (max - min) + min
